@@ -26,7 +26,7 @@ def make_cfg(rng):
     lams = [0.5 * rng.uniform(0.8, 1.3) for _ in range(nch)]
     dx = max(lams) / math.sqrt(2) * rng.uniform(1.05, 3.0)
     cfg = {'back': rng.random() < 0.5, 'method': mi, 'h': h, 'w': w, 'dx': dx, 'z0': rng.uniform(0.5, 3.0), 'offset': rng.uniform(-1, 1),
-           'lams': lams, 'dists': [rng.uniform(-3, 3) for _ in range(ndep)],
+           'lams': lams, 'dists': [0.0 if rng.random() < 0.25 else rng.uniform(-3, 3) for _ in range(ndep)],   # a plane AT the hologram plane is a valid plane
            'aperture': rng.choice(['binary_default', 'binary_random', 'nonbinary'])}
     return cfg
 
@@ -132,24 +132,29 @@ def run(ctx):
         # (3) documented model on the implementation: pad, FFT, kernel once, aperture once, inverse, crop
         import odak.learn.wave as LW
         import odak.learn.tools as LT
-        d, c, u = ops[0]
-        lam = cfg['lams'][c]
-        z = float(np.float32(cfg['dists'][d]))
-        if cfg['back']:
-            K = lambda zz: LW.get_propagation_kernel(nu=2 * h, nv=2 * w, dx=cfg['dx'], wavelength=lam, distance=zz, propagation_type=METHODS[cfg['method']][1])
-            H = K(cfg['z0']) * K(-(cfg['z0'] + cfg['offset'] - z))
-        else:
-            H = LW.get_propagation_kernel(nu=2 * h, nv=2 * w, dx=cfg['dx'], wavelength=lam, distance=z, propagation_type=METHODS[cfg['method']][1])
-        H = H.reshape(2 * h, 2 * w)
-        up = LT.zero_pad(torch.from_numpy(u).to(torch.complex64))
-        doc = torch.fft.ifft2(torch.fft.ifftshift(H * p.aperture * torch.fft.fftshift(torch.fft.fft2(up))))
-        doc = LT.crop_center(doc).numpy().astype(np.complex128)
-        scale = max(1.0, float(np.max(np.abs(doc))))
-        if W.maxdiff(res[0][1], doc) > 5e-4 * scale:
-            ctx.violation('propagator.__call__ differs from the documented model (kernel once, aperture once) by %.3g with a %s aperture'
-                          % (W.maxdiff(res[0][1], doc), cfg['aperture']), rec,
-                          {'what': 'documented_model', 'aperture': cfg['aperture']})
+        seen_keys = set()
+        for k_op, (d, c, u) in enumerate(ops):
+            if (d, c) in seen_keys:
+                continue
+            seen_keys.add((d, c))
+            lam = cfg['lams'][c]
+            z = float(np.float32(cfg['dists'][d]))
+            if cfg['back']:
+                K = lambda zz: LW.get_propagation_kernel(nu=2 * h, nv=2 * w, dx=cfg['dx'], wavelength=lam, distance=zz, propagation_type=METHODS[cfg['method']][1])
+                H = K(cfg['z0']) * K(-(cfg['z0'] + cfg['offset'] - z))
+            else:
+                H = LW.get_propagation_kernel(nu=2 * h, nv=2 * w, dx=cfg['dx'], wavelength=lam, distance=z, propagation_type=METHODS[cfg['method']][1])
+            H = H.reshape(2 * h, 2 * w)
+            up = LT.zero_pad(torch.from_numpy(u).to(torch.complex64))
+            doc = torch.fft.ifft2(torch.fft.ifftshift(H * p.aperture * torch.fft.fftshift(torch.fft.fft2(up))))
+            doc = LT.crop_center(doc).numpy().astype(np.complex128)
+            scale = max(1.0, float(np.max(np.abs(doc))))
+            if W.maxdiff(res[k_op][1], doc) > 5e-4 * scale:
+                ctx.violation('propagator.__call__ differs from the documented model (kernel once, aperture once) by %.3g with a %s aperture'
+                              % (W.maxdiff(res[k_op][1], doc), cfg['aperture']) + (' for a plane at distance 0' if z == 0.0 else ''), rec,
+                              {'what': 'documented_model', 'aperture': cfg['aperture'], 'zero_distance': z == 0.0})
         # (4) back and forth = forward by the net distance (unit-modulus additive kernels: AS, TF)
+        d, c, u = ops[0]
         if cfg['back'] and cfg['method'] in (0, 1):
             cfg2 = dict(cfg, back=False, dists=[float(np.float32(x)) - cfg['offset'] for x in cfg['dists']])
             fwd = build(cfg2, ap)(torch.from_numpy(u).to(torch.complex64), channel_id=c, depth_id=d).detach().numpy().astype(np.complex128)
